@@ -7,6 +7,7 @@ import (
 	"encoding/json"
 	"fmt"
 	"os"
+	"runtime"
 	"strconv"
 
 	_ "github.com/berquerant/crd/zz_verif/models" // keeps the model package in every harness build
@@ -207,3 +208,10 @@ func ExitCodeOf(f func()) int { f(); return -1 }
 func TempPath(name string) string {
 	return os.TempDir() + "/crdverif-" + strconv.Itoa(os.Getpid()) + "-" + name
 }
+
+// NondetSpawnOrder makes the engine explore which goroutine runs first wherever one is
+// started (and nowhere else): cheap enough for long inputs.
+func NondetSpawnOrder(on bool) {}
+
+// CPUs sets what runtime.GOMAXPROCS(0) and runtime.NumCPU() report; natively it sets GOMAXPROCS.
+func CPUs(n int) { runtime.GOMAXPROCS(n) }
